@@ -25,7 +25,8 @@ EXPLANATION = (
     "constructor argument, save/load go through them, and metadata passed to the constructor overrides the "
     "constructor's defaults; (R3) trim selects indices by argmin|t - x| on the record's own time axis, keeps "
     "[start, end+1), raises for start<0, start>=end, end>last time, and the three components are trimmed with "
-    "the same arguments. Not decided: JSON float exactness (assumption 2).")
+    "the same arguments; no method of the two classes carries a wrapping (memoising) decorator. Not decided: JSON float "
+    "exactness (assumption 2).")
 
 RULES = {
     "C18.R1a": "fields stored by the constructors are fresh copies (no alias of an argument's sample storage)",
